@@ -28,6 +28,7 @@ func (v *Verifier) newTr(u *Unit) *tr {
 	t.allocTop = t.newVar("allocTop", SInt, nil, true)
 	t.panicking = t.newVar("panicking", SBool, types.Typ[types.Bool], false)
 	t.panicVal = t.newVar("panicval", SInt, nil, false)
+	t.didPanic = t.newVar("didpanic", SBool, types.Typ[types.Bool], false)
 	return t
 }
 
@@ -249,6 +250,7 @@ func (v *Verifier) generate(u *Unit) *UnitResult {
 			return true
 		})
 	}
+	t.assign(t.didPanic, tFalse)
 	// deferred-call registration flags start out false
 	nd := 0
 	ast.Inspect(u.Body, func(n ast.Node) bool {
@@ -287,10 +289,19 @@ func (t *tr) finish() {
 		if normal != nil {
 			t.cur = normal
 			t.assign(t.panicking, tFalse)
+			// the values handed to `return`, before any deferred call ran: returnedN in postconditions
+			t.returnedVars = nil
+			for i, rv := range t.results {
+				sv := t.tmpVar(fmt.Sprintf("returned%d", i), rv.Sort, rv.T)
+				t.assign(sv, t.read(rv))
+				t.returnedVars = append(t.returnedVars, sv)
+			}
+			t.assign(t.didPanic, tFalse)
 			normal = t.cur
 		}
 		if pan != nil {
 			t.cur = pan
+			t.assign(t.didPanic, tTrue)
 			t.assign(t.panicking, tTrue)
 			t.assume(neq(t.read(t.panicVal), intLit(0)))
 			pan = t.cur
@@ -336,6 +347,12 @@ func (t *tr) finish() {
 		for i, rv := range t.results {
 			r := t.read(rv)
 			sc.vars[fmt.Sprintf("result%d", i)] = r
+			sc.vars["panicked"] = t.read(t.didPanic) // the exit is reached through a recovered panic
+			if i < len(t.returnedVars) {
+				sc.vars[fmt.Sprintf("returned%d", i)] = t.read(t.returnedVars[i])
+			} else {
+				sc.vars[fmt.Sprintf("returned%d", i)] = r // no deferred calls: same value
+			}
 			if con != nil && i < len(con.ResultNames) {
 				sc.vars[con.ResultNames[i]] = r
 			} else if n := t.u.Sig.Results().At(i).Name(); n != "" && n != "_" {
@@ -463,6 +480,10 @@ func (t *tr) checkFrame(kind string) {
 }
 
 func (t *tr) runDefer(d *deferRec) {
+	if d.inLoop {
+		t.runLoopDefer(d)
+		return
+	}
 	if lit, ok := ast.Unparen(d.call.Fun).(*ast.FuncLit); ok {
 		t.inlineLit(lit, d.call.Args, d.pos)
 		return
